@@ -1214,23 +1214,25 @@ Qed.
 Definition cr_quiet (j : instr) : Prop :=
   (forall c, ufwd_of c j = []) /\ (forall m c, j <> ILock m (LChClose c)).
 
-Lemma cr_triv : forall st st' m t i r new ev,
+Lemma cr_triv : forall st st' m t pre r new ev,
   CRel PNone st m ->
   (forall u, tcur (thr st' u) = tcur (thr st u)) -> (forall u, tret (thr st' u) = tret (thr st u)) ->
   (forall u, u <> t -> tcont (thr st' u) = tcont (thr st u)) ->
-  tcont (thr st t) = i :: r -> tcont (thr st' t) = new ++ r ->
+  tcont (thr st t) = pre ++ r -> tcont (thr st' t) = new ++ r ->
   (forall c, copen (chs st' c) = copen (chs st c) /\ cq (chs st' c) = cq (chs st c) /\ cexists (chs st' c) = cexists (chs st c)) ->
   (forall e, In e ev -> c13_plain e) ->
-  (forall c, ufwd_of c i = []) -> (forall m0 c, i <> ILock m0 (LChClose c)) ->
+  (forall i, In i pre -> cr_quiet i) ->
   (forall j, In j new -> cr_quiet j) ->
   (forall c m0 b, tcur (thr st t) = Some (CClosed c) -> In (IUnlock m0 (URet (RBool b))) new -> b = negb (copen (chs st c))) ->
   CRel PNone st' (fold_left m13_step (evs t ev) m).
 Proof.
-  intros st st' m t i r new ev R Hcur Hret Ho Hc Hc' Hch Hev Hi1 Hi2 Hnew Hcc.
+  intros st st' m t pre r new ev R Hcur Hret Ho Hc Hc' Hch Hev Hpre Hnew Hcc.
   assert (Tr : forall c, transit st' c = transit st c).
   { intro c. unfold transit. destruct (Nat.eq_dec main t) as [E|E]; [|rewrite (Ho main E); reflexivity].
-    rewrite E, Hc, Hc'. cbn [flat_map]. rewrite Hi1, flat_map_app. cbn.
-    replace (flat_map (ufwd_of c) new) with (@nil Z); [reflexivity|]. symmetry. apply flat_map_nil. intros j Hj. apply (Hnew j Hj). }
+    rewrite E, Hc, Hc', !flat_map_app.
+    replace (flat_map (ufwd_of c) new) with (@nil Z) by (symmetry; apply flat_map_nil; intros j Hj; apply (Hnew j Hj)).
+    replace (flat_map (ufwd_of c) pre) with (@nil Z) by (symmetry; apply flat_map_nil; intros j Hj; apply (Hpre j Hj)).
+    reflexivity. }
   apply (cr_frame_s st st' m _ R (m13_plain_fold t ev m Hev)).
   - intro c. apply Hch.
   - intros c Ho'. destruct (Hch c) as [A [B _]]. rewrite A in Ho'. split; [exact Ho'|]. rewrite Tr, B. reflexivity.
@@ -1240,10 +1242,11 @@ Proof.
   - intros u c x _. rewrite Hret. auto.
   - intros u c b _. rewrite Hret. auto.
   - intros u m0 c _ Hin. left. exists m0. destruct (Nat.eq_dec u t) as [->|Hu]; [|rewrite (Ho u Hu); exact Hin].
-    rewrite Hc in Hin. rewrite Hc'. destruct Hin as [Hin|Hin]; [exfalso; eapply Hi2; eauto|]. apply in_or_app. auto.
+    rewrite Hc in Hin. rewrite Hc'. apply in_app_or in Hin. destruct Hin as [Hin|Hin]; [exfalso; eapply (proj2 (Hpre _ Hin)); eauto|].
+    apply in_or_app. auto.
   - intros u c m0 b Hu0 Hin. destruct (Nat.eq_dec u t) as [->|Hu]; [|left; exists m0; rewrite (Ho u Hu) in Hin; exact Hin].
     rewrite Hc' in Hin. apply in_app_or in Hin. destruct Hin as [Hin|Hin]; [right; eapply Hcc; eauto|].
-    left. exists m0. rewrite Hc. right. exact Hin.
+    left. exists m0. rewrite Hc. apply in_or_app. right. exact Hin.
 Qed.
 
 Lemma cr_msame : forall p st m m', CRel p st m -> m13_same m m' -> CRel p st m'.
@@ -1285,9 +1288,8 @@ Ltac cr_pl := let e := fresh "e" in let He := fresh "He" in
 Ltac cr_new := let j := fresh "j" in let Hj := fresh "Hj" in
   intros j Hj; in_cases Hj; (split; [intro; reflexivity|intros; discriminate]).
 Ltac crt st t i r new :=
-  apply (cr_triv st _ _ t i r new);
-  [ assumption | thr_simpl | thr_simpl | thr_simpl | eassumption | thr_simpl | cr_chs | cr_pl | intro; reflexivity
-  | intros; discriminate | cr_new
+  apply (cr_triv st _ _ t [i] r new);
+  [ assumption | thr_simpl | thr_simpl | thr_simpl | eassumption | thr_simpl | cr_chs | cr_pl | cr_new | cr_new
   | let Hu := fresh in intros ? ? ? Hu ?; exfalso;
     match goal with Hcc : forall c, tcur (thr st t) <> Some (CClosed c) |- _ => exact (Hcc _ Hu) end ].
 
@@ -1319,8 +1321,8 @@ Proof.
     + crt st t (ILock m (LChSend c m0)) r [IUnlock (MCh c) (URet (RBool false))].
   - (* LChClosed *)
     inversion H; subst; clear H.
-    apply (cr_triv st _ _ t (ILock m (LChClosed c)) r [IUnlock (MCh c) (URet (RBool (negb (copen (chs st c)))))]);
-      [assumption|thr_simpl|thr_simpl|thr_simpl|eassumption|thr_simpl|cr_chs|cr_pl|intro; reflexivity|intros; discriminate|cr_new|].
+    apply (cr_triv st _ _ t [ILock m (LChClosed c)] r [IUnlock (MCh c) (URet (RBool (negb (copen (chs st c)))))]);
+      [assumption|thr_simpl|thr_simpl|thr_simpl|eassumption|thr_simpl|cr_chs|cr_pl|cr_new|cr_new|].
     intros c1 m1 b1 Hu1 [E|[]]. inversion E; subst b1.
     assert (Hu : tcur (thr st t) = Some (CClosed c)) by (apply (sh_own_lc st S t m c); rewrite Hc; left; reflexivity).
     congruence.
@@ -1720,9 +1722,9 @@ Proof.
     destruct msgs as [|x0 msgs0].
     + (* nothing taken *)
       destruct (closed_head_unlock_not st t m (UFwd c []) r S Hc ltac:(intros; discriminate)) as [Hcc' _].
-      apply (cr_triv st _ _ t (IUnlock m (UFwd c [])) r (@nil instr));
+      apply (cr_triv st _ _ t [IUnlock m (UFwd c [])] r (@nil instr));
         [assumption|thr_simpl|thr_simpl|thr_simpl|eassumption|thr_simpl|cr_chs|intros e []|
-         intro c0; cbn; destruct (c =? c0); reflexivity|intros; discriminate|intros j []|].
+         intros j [<-|[]]; split; [intro c0; cbn; destruct (c =? c0); reflexivity|intros; discriminate]|intros j []|].
       intros c1 m1 b1 Hu1 []. 
     + assert (Tm : t = main).
       { destruct (Nat.eq_dec t main) as [E|N]; [exact E|]. exfalso. pose proof (sh_ufwd_main st S t c N) as X.
@@ -1759,8 +1761,8 @@ Proof.
       * intros u c1 m0 b1 Hu1 Hin. left. exists m0. revert Hin. cbn -[Nat.eqb]. unfold updN, th.
         destruct (Nat.eqb_spec u main) as [->|Nu]; cbn; [|auto]. intro Hin. rewrite Hc. right. exact Hin.
   - pose proof (Hcc _ eq_refl ltac:(intros; discriminate)) as Hcc'. exists PNone. split; [|auto].
-    apply (cr_triv st _ _ t (IUnlock m (UPqFwd p msgs term)) r (@nil instr));
-      [assumption|thr_simpl|thr_simpl|thr_simpl|eassumption|thr_simpl|cr_chs| |intro; reflexivity|intros; discriminate|intros j []|].
+    apply (cr_triv st _ _ t [IUnlock m (UPqFwd p msgs term)] r (@nil instr));
+      [assumption|thr_simpl|thr_simpl|thr_simpl|eassumption|thr_simpl|cr_chs| |cr_new|intros j []|].
     + intros e He. apply in_app_or in He. destruct He as [He|He].
       * apply in_map_iff in He. destruct He as [z [<- _]]. exact Logic.I.
       * destruct term; [destruct He as [<-|[]]; exact Logic.I|destruct He].
@@ -1770,15 +1772,16 @@ Qed.
 (** a state change outside of what the relation reads *)
 Lemma cr_steq : forall p st st' m,
   chs st' = chs st ->
-  (forall u, tcur (thr st' u) = tcur (thr st u) /\ tret (thr st' u) = tret (thr st u) /\ tcont (thr st' u) = tcont (thr st u)) ->
+  (forall u, tcur (thr st' u) = tcur (thr st u) /\ tcont (thr st' u) = tcont (thr st u) /\
+             (tcur (thr st u) <> None -> tret (thr st' u) = tret (thr st u))) ->
   CRel p st m -> CRel p st' m.
 Proof.
   intros p st st' m Hch Hf R.
   assert (Cu : forall u, tcur (thr st' u) = tcur (thr st u)) by (intro u; apply Hf).
-  assert (Re : forall u, tret (thr st' u) = tret (thr st u)) by (intro u; apply Hf).
   assert (Co : forall u, tcont (thr st' u) = tcont (thr st u)) by (intro u; apply Hf).
+  assert (Re : forall u c, tcur (thr st u) = Some c -> tret (thr st' u) = tret (thr st u)) by (intros u c E; apply Hf; congruence).
   assert (Tr : forall c, transit st' c = transit st c) by (intro c; unfold transit; rewrite Co; reflexivity).
-  constructor; intros; rewrite ?Hch, ?Tr, ?Cu, ?Re, ?Co in *.
+  constructor; intros; rewrite ?Hch, ?Tr, ?Cu, ?Co in *.
   - apply (r_bad p st m R).
   - apply (r_open p st m R); auto.
   - apply (r_done p st m R); auto.
@@ -1789,12 +1792,81 @@ Proof.
   - apply (r_acc_nd p st m R).
   - eapply (r_late_dom p st m R); eauto.
   - apply (r_late_nd p st m R).
-  - eapply (r_send p st m R); eauto.
-  - eapply (r_pacc p st m R); eauto.
-  - eapply (r_closedcmd p st m R); eauto.
+  - rewrite (Re _ _ H). eapply (r_send p st m R); eauto.
+  - destruct (r_pacc p st m R t c x H) as [A [B [C D]]]. rewrite (Re _ _ A). auto.
+  - rewrite (Re _ _ H). eapply (r_closedcmd p st m R); eauto.
   - eapply (r_dropcmd p st m R); eauto.
   - eapply (r_pbad p st m R); eauto.
   - eapply (r_ord p st m R); eauto.
+Qed.
+
+(** threads that have not been spawned have no command *)
+Definition UInv (st : wstate) : Prop := forall u, (nthr st <= u)%nat -> tcur (thr st u) = None.
+
+Theorem wstep_U : forall st t st' ev, MInv st -> UInv st -> wstep st t = (st', ev) -> UInv st'.
+Proof.
+  intros st t st' ev [I [P Wf]] U H. unfold wstep in H.
+  destruct (enabled st t) eqn:En; cbn [negb] in H; [|inversion H; subst; exact U].
+  assert (Ht : (t < nthr st)%nat).
+  { unfold enabled in En. apply andb_true_iff in En. destruct En as [En _]. apply Nat.ltb_lt in En. exact En. }
+  assert (Pt : pristine (tick st t)) by (unfold tick; prist st t).
+  assert (Ut : UInv (tick st t)).
+  { intros u Hu. unfold tick. cbn -[Nat.eqb]. unfold updN, th. destruct (Nat.eqb_spec u t); [cbn in Hu; lia|]. apply U. exact Hu. }
+  assert (Htt : (t < nthr (tick st t))%nat) by exact Ht.
+  set (s0 := tick st t) in *. clearbody s0. clear En.
+  assert (Fin : forall s ev0 done, (nthr st' = nthr s -> True) -> (forall u, (nthr s <= u)%nat -> tcur (thr s u) = None) -> (t < nthr s)%nat ->
+                                   settle s t ev0 done = (st', ev) -> UInv st').
+  { intros s ev0 done _ Us Hts Hs. destruct (settle_Y _ _ _ _ _ _ Hs) as [_ B]. intros u Hu.
+    assert (Hn : nthr st' = nthr s).
+    { clear - Hs. unfold settle in Hs.
+      destruct (norm _ _ _ _ _) as [[[s1 acc1] k1] ev1]. cbn zeta in Hs.
+      match type of Hs with (let '(st2, ev2) := ?E in _) = _ => destruct E as [st2 ev2] eqn:E2 end.
+      assert (N2 : nthr st2 = nthr s).
+      { destruct done; [inversion E2; reflexivity|]. destruct k1; [|inversion E2; reflexivity].
+        destruct (tcur _) as [c|]; inversion E2; [destruct c|]; reflexivity. }
+      destruct (tcont (th st2 t)); [|inversion Hs; subst; exact N2].
+      destruct (tscript (th st2 t)); [|inversion Hs; subst; exact N2].
+      destruct (tcur (th st2 t)); [inversion Hs; subst; exact N2|].
+      destruct (tfinal (th st2 t)); inversion Hs; subst; exact N2. }
+    rewrite Hn in Hu. rewrite (B u) by lia. apply Us. exact Hu. }
+  destruct (tstarted (th s0 t)) eqn:Es0; cbn [negb] in H.
+  - destruct (tcont (th s0 t)) as [|i r] eqn:Ec.
+    + destruct (tscript (th s0 t)) as [|c0 cs] eqn:Es; [inversion H; subst; exact U|].
+      match type of H with context [begin_cmd ?S0 t ?cc] =>
+        destruct (begin_cmd S0 t cc) as [[st2 ev0] done] eqn:Eb; set (s1 := S0) in * end.
+      assert (P1 : pristine s1) by (unfold s1; prist s0 t).
+      destruct (begin_cmd_sum s1 t c0 st2 ev0 done P1 Htt Eb) as [_ [_ [Ho [Hn _]]]].
+      change (nthr s1) with (nthr s0) in *.
+      apply (Fin st2 (ECmd c0 :: ev0) done); auto.
+      * intros u Hu. destruct Hn as [Hn|[Hn [Hn1 _]]].
+        -- rewrite Hn in Hu. rewrite (Ho u) by (try lia; right; exact Hn). unfold s1. cbn -[Nat.eqb]. unfold updN, th.
+           destruct (Nat.eqb_spec u t); [lia|]. apply Ut. exact Hu.
+        -- rewrite Hn in Hu. rewrite (Ho u) by (try lia; left; lia). unfold s1. cbn -[Nat.eqb]. unfold updN, th.
+           destruct (Nat.eqb_spec u t); [lia|]. apply Ut. lia.
+      * destruct Hn as [Hn|[Hn _]]; lia.
+    + destruct (exec_instr s0 t i r) as [st1 ev1] eqn:Ee.
+      destruct (exec_instr_tf _ _ _ _ _ _ Ee) as [Hn [Hf _]].
+      apply (Fin st1 ev1 None); auto; [|lia]. intros u Hu. destruct (Hf u) as [A _]. rewrite A. apply Ut. lia.
+  - apply (Fin (upd_th s0 t (set_tstarted (th s0 t) true)) [EStart] None); auto.
+    intros u Hu. cbn -[Nat.eqb]. unfold updN, th. destruct (Nat.eqb_spec u t); [cbn in Hu; lia|]. apply Ut. exact Hu.
+Qed.
+
+Lemma U_init : forall scr, UInv (winit scr).
+Proof. intros scr u Hu. reflexivity. Qed.
+
+Lemma wrun_U : forall sched st, MInv st -> UInv st -> UInv (fst (wrun st sched)).
+Proof.
+  induction sched as [|t rest IH]; intros st M X; cbn [wrun]; auto.
+  destruct (wstep st t) as [st1 ev] eqn:E.
+  specialize (IH st1 (wstep_inv _ _ _ _ M E) (wstep_U _ _ _ _ M X E)).
+  destruct (wrun st1 rest) as [st2 tr]. exact IH.
+Qed.
+
+Lemma cr_spawn : forall p s m t p0 f, CRel p s m -> pristine s -> UInv s -> CRel p (spawn_thread s t p0 f) m.
+Proof.
+  intros p s m t p0 f R [P0 P] U. apply (cr_steq p s); [reflexivity| |exact R].
+  intro u. cbn. unfold updN, th. destruct (Nat.eqb_spec u (nthr s)) as [->|N]; cbn; [|auto].
+  rewrite (U (nthr s) (le_n _)). destruct (P (nthr s) (le_n _)) as [E _]. rewrite E. split; [reflexivity|]. split; [reflexivity|congruence].
 Qed.
 
 Lemma not_closed_head : forall st t i r, ShInv st -> tcont (thr st t) = i :: r ->
@@ -1841,14 +1913,14 @@ Proof.
                             tcur (thr st' u) = tcur (thr st u) /\ tret (thr st' u) = tret (thr st u)).
     { intro u. unfold st'. cbn -[Nat.eqb]. unfold updN, th. rewrite A8. cbn -[Nat.eqb]. unfold updN, th.
       destruct (Nat.eqb_spec u t); subst; rewrite ?Nat.eqb_refl; cbn; repeat split; reflexivity. }
-    apply (cr_triv st st' _ t (ILeaves bm (z :: ls)) r [ILeaves bm ls]); auto.
+    apply (cr_triv st st' _ t [ILeaves bm (z :: ls)] r [ILeaves bm ls]); auto.
     + intro u. apply Hth.
     + intro u. apply Hth.
     + intros u Hu. destruct (Hth u) as [A _]. rewrite A. destruct (Nat.eqb_spec u t); [congruence|reflexivity].
     + destruct (Hth t) as [A _]. rewrite A, Nat.eqb_refl. reflexivity.
     + intro c0. unfold st'. cbn. rewrite A6. cbn. repeat split; reflexivity.
     + destruct ok; cr_pl.
-    + intros; discriminate.
+    + cr_new.
     + cr_new.
     + intros c1 m1 b1 Hu1 _. exfalso. exact (Hcc' _ Hu1).
   - exists PNone. split; [|auto]. inversion H; subst. eapply cr_msame; [exact R|apply m13_plain_fold; cr_pl].
@@ -1860,7 +1932,7 @@ Proof.
     change (evs t (ELock m :: e2)) with ((t, ELock m) :: evs t e2). cbn [fold_left].
     assert (S1 : ShInv s1) by (unfold s1; sh_eq st).
     assert (R1 : CRel PNone s1 (m13_step ms (t, ELock m))).
-    { apply (cr_msame _ _ ms); [|apply m13_plain_step; exact Logic.I]. apply (cr_steq _ st); auto. intro u. unfold s1. repeat split; thr_simpl. }
+    { apply (cr_msame _ _ ms); [|apply m13_plain_step; exact Logic.I]. apply (cr_steq _ st); auto. intro u. unfold s1. split; [thr_simpl|split; [thr_simpl|intros _; thr_simpl]]. }
     apply (exec_lact_C s1 _ t m a r st' e2 S1 R1); [unfold s1; thr_simpl|exact E].
   - (* unlock *)
     destruct (exec_uact st t a r) as [s1 e1] eqn:E. inversion H; subst; clear H.
@@ -1875,7 +1947,7 @@ Proof.
     change (evs t (ECvWake p :: e2)) with ((t, ECvWake p) :: evs t e2). cbn [fold_left].
     assert (S1 : ShInv s1) by (unfold s1; sh_eq st).
     assert (R1 : CRel PNone s1 (m13_step ms (t, ECvWake p))).
-    { apply (cr_msame _ _ ms); [|apply m13_plain_step; exact Logic.I]. apply (cr_steq _ st); auto. intro u. unfold s1. repeat split; thr_simpl. }
+    { apply (cr_msame _ _ ms); [|apply m13_plain_step; exact Logic.I]. apply (cr_steq _ st); auto. intro u. unfold s1. split; [thr_simpl|split; [thr_simpl|intros _; thr_simpl]]. }
     assert (Hc1 : tcont (thr s1 t) = ICvReacq p :: r) by (unfold s1; thr_simpl; exact Hc).
     pose proof (not_closed_head s1 t _ r S1 Hc1 ltac:(intros; discriminate) ltac:(intros; discriminate)) as Hcc'.
     clear - R1 Hc1 E Hcc'. cbn [exec_lact] in E. destr_all E; inversion E; subst; clear E.
@@ -1893,7 +1965,7 @@ Proof.
       set (s1 := fold_left f us st) in * end.
     cbn zeta in *.
     assert (R1 : CRel PNone s1 ms).
-    { apply (cr_steq _ st); auto. intro u. destruct (B u) as [X1 [_ [_ [_ [_ X6]]]]]. repeat split; auto. }
+    { apply (cr_steq _ st); auto. intro u. destruct (B u) as [X1 [_ [_ [_ [_ X6]]]]]. split; [exact X1|split; [exact X6|intros _; apply D]]. }
     assert (Hc1 : tcont (thr s1 t) = INotify p :: r) by (destruct (B t) as [_ [_ [_ [_ [_ X6]]]]]; rewrite X6; exact Hc).
     assert (Hcc1 : forall c, tcur (thr s1 t) <> Some (CClosed c)) by (intro c; destruct (B t) as [X1 _]; rewrite X1; apply Hcc').
     clear Hcc'. crt s1 t (INotify p) r (@nil instr).
@@ -2017,3 +2089,65 @@ Section CInstall.
       apply (r_ord _ s0 m R a1 u c0 x a2 Ea l k1 k2 Ek e He Et Hin).
   Qed.
 End CInstall.
+
+Lemma get_tid_some_in : forall A t (l : list (tid * A)), In t (map fst l) -> exists x, get_tid t l = Some x.
+Proof.
+  induction l as [|[u x] l IH]; intro H; [destruct H|]. cbn. destruct (Nat.eqb_spec u t); [eauto|].
+  destruct H as [H|H]; [cbn in H; congruence|apply IH; exact H].
+Qed.
+
+Definition pend_install (t : tid) (c : cmd) : pend := match c with CCDrop c0 => PBadDrop t c0 | _ => PNone end.
+
+Lemma cr_install : forall s0 s1 ms t c,
+  CRel PNone s0 ms -> tcur (thr s0 t) = None -> tcont (thr s0 t) = [] ->
+  (forall u, u <> t -> thr s1 u = thr s0 u) ->
+  tcur (thr s1 t) = Some c -> tret (thr s1 t) = RUnit -> tcont (thr s1 t) = [] -> chs s1 = chs s0 ->
+  NoDup (map sk (m13_sends (m13_step ms (t, ECmd c)))) ->
+  CRel (pend_install t c) s1 (m13_step ms (t, ECmd c)).
+Proof.
+  intros s0 s1 ms t c R Hcur0 Hk0 Ho Hcur1 Hret1 Hk1 Hch Nd.
+  assert (Lnone : ~ In t (map fst (m13_late ms))).
+  { intro Hin. destruct (get_tid_some_in _ _ _ Hin) as [l Hl]. destruct (r_late_dom _ s0 ms R t l Hl) as [c0 [[x E]|E]]; congruence. }
+  assert (Ht : tcur (thr s1 t) = Some c /\ tret (thr s1 t) = RUnit /\ tcont (thr s1 t) = tcont (thr s0 t)) by (rewrite Hk0; auto).
+  assert (Done : forall c0, memZ c0 (m13_cdone ms) = true -> copen (chs s0 c0) = false /\ cexists (chs s0 c0) = true) by (apply (r_done _ s0 ms R)).
+  assert (Gn : get_tid t (m13_late ms) = None) by (apply get_tid_none; exact Lnone).
+  pose proof (r_late_nd _ s0 ms R) as Lnd.
+  destruct c as [w|w|c0 x|c0|w|n| | | | | |c0|c0|p0|p0 x|p0| |x| | ];
+    try (apply (cr_install_gen s0 s1 ms _ t _ PNone [] [] R Hcur0 Ho Ht Hch); try reflexivity; auto;
+         try (intros ? []; fail); try (intros; discriminate); try (intros l Hl; cbn in Hl; congruence); fail).
+  - (* CSend *)
+    cbn [pend_install].
+    apply (cr_install_gen s0 s1 ms _ t _ PNone [mkCS t c0 x (memZ c0 (m13_cdone ms))] [(t, memZ c0 (m13_cdone ms))] R Hcur0 Ho Ht Hch);
+      try reflexivity; auto.
+    + intros s [<-|[]]. reflexivity.
+    + intros e [<-|[]]. reflexivity.
+    + intros l Hl. exists c0. left. eauto.
+    + cbn. constructor; [exact Lnone|exact Lnd].
+    + intros c1 x1 E. inversion E; subst c1 x1. exists (memZ c0 (m13_cdone ms)). split; [reflexivity|]. split; [cbn; rewrite Nat.eqb_refl; reflexivity|].
+      intro El. apply Done. exact El.
+    + intros; discriminate.
+    + intros; discriminate.
+    + intros; discriminate.
+  - (* CClosed *)
+    cbn [pend_install].
+    apply (cr_install_gen s0 s1 ms _ t _ PNone [] [(t, memZ c0 (m13_cdone ms))] R Hcur0 Ho Ht Hch); try reflexivity; auto.
+    + intros s [].
+    + intros e [<-|[]]. reflexivity.
+    + intros l Hl. exists c0. right. reflexivity.
+    + cbn. constructor; [exact Lnone|exact Lnd].
+    + intros; discriminate.
+    + intros c1 E. inversion E; subst c1. exists (memZ c0 (m13_cdone ms)). split; [cbn; rewrite Nat.eqb_refl; reflexivity|].
+      intro El. apply Done. exact El.
+    + intros; discriminate.
+    + intros; discriminate.
+  - (* CCDrop *)
+    cbn [pend_install].
+    apply (cr_install_gen s0 s1 ms _ t _ (PBadDrop t c0) [] [] R Hcur0 Ho Ht Hch); try reflexivity; eauto.
+    + intros s [].
+    + intros e [].
+    + intros l Hl. cbn in Hl. congruence.
+    + intros; discriminate.
+    + intros; discriminate.
+    + intros c1 E. inversion E; subst c1. split; [reflexivity|]. cbn. eauto.
+    + intros c1 E. inversion E. reflexivity.
+Qed.
